@@ -25,6 +25,7 @@ META["claim"] += " " + "Also: status tokens that merely begin with 101, interim 
 META["claim"] += " " + 'Round 4: offered subprotocols as list, tuple, iterator and generator (one-shot iterables judged in the reject direction only).'
 META["claim"] += " " + 'Round 5: the right accept value with characters a lenient base64 decoder skips (. - blank quotes), a suffix after the padding, doubled, extra padding, folded; Upgrade / Connection tokens broken across a continuation line.'
 META["claim"] += " " + "Rounds 6-7: casefold look-alikes, negative limits; a second status line inside the header block (first line 403/404/200/500/400/0); required headers that exist only behind VT, FF, FS, GS, RS, NEL, U+2028, U+2029, a lone CR or NUL inside another header's value."
+META["claim"] += " " + 'Round 8: subprotocols given as one plain string; one of Upgrade / Connection carrying both tokens while the other is missing or wrong.'
 
 STATUSES = [100, 101, 101, 101, 101, 200, 204, 300, 304, 400, 401, 403, 404, 426, 500, 503, 999, "1015", "1010", "101x", "0101", "101.0", "10", "1101", "102", "103"]
 UPGRADE = [("websocket", True), ("WebSocket", True), ("websocket, foo", True), ("foo,websocket", True), ("  websocket  ", True),
